@@ -255,3 +255,22 @@ class Exporter(object):
         graph = 'mkgraph [%s] [%s] [%s] %d' % ('; '.join(nodes), '; '.join(succ), '; '.join(prev), nid[g.entry])
         self.nclean = len(clean)
         return '(%d, %d, %s, [%s], %s, [%s])' % (idx, 3 * self.an.visits + 40, tabs, '; '.join(str(self.name(x)) for x in sorted(clean)), graph, '; '.join(sol))
+
+
+def fn_case(prog, an, idx):
+    """Reaching function definitions of every graph of the program as an `fcase` of coq/Types/FnDefs.v:
+    CFG edges, def nodes, and anno.Static.DEFINED_FNS_IN of every node that has one."""
+    anno = an.anno
+    succ, sol, defs = [], [], set()
+    for g in an.graphs.values():
+        for a, n in g.index.items():
+            k = prog.num[id(a)]
+            if isinstance(a, (ast.FunctionDef, ast.Lambda)):
+                defs.add(k)
+            if not anno.hasanno(a, anno.Static.DEFINED_FNS_IN):
+                continue
+            nxt = [prog.num[id(m.ast_node)] for m in n.next if anno.hasanno(m.ast_node, anno.Static.DEFINED_FNS_IN)]
+            succ.append('(%d, [%s])' % (k, '; '.join(str(x) for x in nxt)))
+            din = anno.getanno(a, anno.Static.DEFINED_FNS_IN)
+            sol.append('(%d, [%s])' % (k, '; '.join(str(prog.num[id(d)]) for d in din if id(d) in prog.num)))
+    return '(%d, mkfgraph [%s] [%s], [%s])' % (idx, '; '.join(succ), '; '.join(str(d) for d in sorted(defs)), '; '.join(sol))
